@@ -246,11 +246,11 @@ def rebin(img, factor):
         raise ValueError('rebin is not defined for complex data')
 
     if img.ndim == 3:
-        rebinned_shape = (img.shape[0], img.shape[1]//factor, img.shape[2]//factor)
-        img_rebinned = np.zeros(rebinned_shape, dtype=img.dtype)
-        for i in range(img.shape[0]):
-            img_rebinned[i] = img[i].reshape(rebinned_shape[1], factor,
-                                             rebinned_shape[2], factor).sum(-1).sum(1)
+        # the sums take numpy's accumulator type, as in the 2D case (storing
+        # them with the dtype of img wraps small integer types and turns the
+        # sums of a boolean cube back into booleans)
+        img_rebinned = img.reshape(img.shape[0], img.shape[1]//factor, factor,
+                                   img.shape[2]//factor, factor).sum(-1).sum(2)
     else:
         img_rebinned = img.reshape(img.shape[0]//factor, factor, img.shape[1]//factor,
                                    factor).sum(-1).sum(1)
